@@ -1,0 +1,34 @@
+//go:build verif && (verif_all || verif_c18)
+// +build verif
+// +build verif_all verif_c18
+
+package gocql
+
+// Verification hooks for C18, round 9 (compression negotiated per connection across the HOSTS of one
+// session): a real Session over several contact points. Add-only.
+
+import "time"
+
+// VerifC18gSession is VerifC18eSession with several contact points: a real Session (policies, one host
+// pool of numConns connections PER host, no control connection, no host lookup) whose connections are
+// dialled by the caller's HostDialer, which learns the host from HostInfo.ConnectAddress().
+func VerifC18gSession(dialer HostDialer, comp Compressor, numConns int, timeout time.Duration, hosts ...string) (*Session, error) {
+	cfg := NewCluster(hosts...)
+	cfg.ProtoVersion = 4
+	cfg.HostDialer = dialer
+	cfg.Compressor = comp
+	cfg.NumConns = numConns
+	cfg.Timeout = timeout
+	cfg.ConnectTimeout = timeout
+	cfg.DisableInitialHostLookup = true
+	cfg.ReconnectInterval = 0
+	cfg.WriteCoalesceWaitTime = 0
+	cfg.Logger = nopLogger{}
+	cfg.PoolConfig.HostSelectionPolicy = RoundRobinHostPolicy()
+	cfg.Consistency = One
+	cfg.disableControlConn = true
+	return NewSession(*cfg)
+}
+
+// VerifC18gConnHost is the connect address of the host a pooled connection belongs to.
+func VerifC18gConnHost(c *Conn) string { return c.host.ConnectAddress().String() }
